@@ -65,12 +65,13 @@ def cached(name, tier, seed, fn, extra=""):
             except Exception:
                 pass
         # drop stale entries of this workload
-        for fn_ in os.listdir(CACHE):
-            if fn_.startswith(name + "-") and fn_.endswith(".pkl"):
-                try:
-                    os.remove(os.path.join(CACHE, fn_))
-                except OSError:
-                    pass
+        old = sorted((fn_ for fn_ in os.listdir(CACHE) if fn_.startswith(name + "-") and fn_.endswith(".pkl")),
+                     key=lambda f: os.path.getmtime(os.path.join(CACHE, f)), reverse=True)
+        for fn_ in old[3:]:  # keep the three most recent trees (several trees may be checked side by side)
+            try:
+                os.remove(os.path.join(CACHE, fn_))
+            except OSError:
+                pass
         val = fn()
         tmp = path + ".tmp"
         with open(tmp, "wb") as f:
@@ -82,13 +83,14 @@ def cached(name, tier, seed, fn, extra=""):
         lock.close()
 
 
-def traced_run(reactions, n_jobs=8, batch_size=None, threshold=0, stats=True):
-    """run the real Balancer under the tracer; returns dict(out, stats, batches, error, wall)"""
+def traced_run(reactions, n_jobs=8, batch_size=None, threshold=0, stats=True, balancer=None):
+    """run the real Balancer under the tracer; returns dict(out, stats, batches, error, wall); `balancer`: reuse this
+    object (a long-lived service object called again) instead of constructing one"""
     import copy
 
     from synrbl import Balancer
 
-    b = Balancer(n_jobs=n_jobs, batch_size=batch_size, confidence_threshold=threshold)
+    b = balancer if balancer is not None else Balancer(n_jobs=n_jobs, batch_size=batch_size, confidence_threshold=threshold)
     st = {} if stats else None
     t0 = time.time()
     err = None
